@@ -14,12 +14,12 @@ from ..common import AnalysisError, Check, norm_stmt, parse_py
 LITERAL_SAMPLES = [
     "'a'", '"a b"', "b'a'", "b'é'", 'b"naïve"', "'é'", "'\\x'", "'\\n'", "r'a\\n'", "u'a'", "rb'\\d'", "Rb'x'",
     "'''a\nb'''", "b'''aé'''", "'\\ud800'", "1_0", "0x1f", "0o17", "0b101", "1e5", "1.5", "1j", "1_000.5", "'it\\'s'",
-    "''", '""', "b''", "9" * 5000, "0_", "1__0", "'\\N{BULLET}'", "'\\N{NO SUCH NAME}'", "b'\\xff'", "'\\400'",
+    "''", '""', "b''", "9" * 5000, "0XFF", "0O17", "0B101", "1E5", "1J", "0xDEAD_beef", "1_0.0_1e1_0", "00", "0_0", ".5", "5.", "1e-3", "0_", "1__0", "'\\N{BULLET}'", "'\\N{NO SUCH NAME}'", "b'\\xff'", "'\\400'",
 ]
 
 
 def rule_x11(chk: Check, rule_id: str = "X11-literal-evaluation"):
-    from .c17 import Crash, EvalError, Marker, _mini_eval, module_pure_constants
+    from .c17 import Crash, EvalError, Marker, SourceSelf, _mini_eval, module_pure_constants
     sub = parse_py(repo.SUBHEADER)
     parser = repo.find_class(sub, "Parser")
     fn = repo.maybe_func(parser, "literal_value")
@@ -46,7 +46,18 @@ def rule_x11(chk: Check, rule_id: str = "X11-literal-evaluation"):
 
         def boom(*a, **k):
             raise Marker("syntax error")
-        me = types.SimpleNamespace(raise_syntax_error_known_location=boom, raise_syntax_error=boom, raise_raw_syntax_error=boom)
+        methods = {m.name: m for m in parser.body if isinstance(m, ast.FunctionDef)}
+        me = SourceSelf(methods, {"raise_syntax_error_known_location": boom, "raise_syntax_error": boom, "raise_raw_syntax_error": boom,
+                                  "raise_syntax_error_known_range": boom})
+        class_consts = {}
+        for st in parser.body:
+            tgt = st.targets[0] if isinstance(st, ast.Assign) and len(st.targets) == 1 else getattr(st, "target", None)
+            if isinstance(tgt, ast.Name) and getattr(st, "value", None) is not None:
+                try:
+                    class_consts[tgt.id] = ast.literal_eval(st.value)
+                except Exception:
+                    pass
+        me.__dict__["_consts"] = class_consts
         tok = types.SimpleNamespace(string=text, type=("Token", kind), start=(1, 0), end=(1, len(text)))
         env = dict(consts)
         env.update({"self": me, param: tok, "ast": types.SimpleNamespace(literal_eval=ast.literal_eval),
@@ -55,7 +66,7 @@ def rule_x11(chk: Check, rule_id: str = "X11-literal-evaluation"):
             with warnings.catch_warnings():
                 warnings.simplefilter("ignore")
                 got = ("value", _mini_eval(fn, env, {"literal_eval", "raise_syntax_error_known_location", "raise_syntax_error",
-                                                     "raise_raw_syntax_error"}))
+                                                     "raise_raw_syntax_error", "raise_syntax_error_known_range"} | set(methods), local_calls=True))
         except Marker:
             got = ("error", None)
         except Crash as e:
